@@ -2046,5 +2046,5 @@ MA('C14', 'uniformity decided against equispaced points of the same end points',
 MA('C19', 'alignment decided from the cosine of the angle',
    'odl/tomo/util/utility.py', 'transform_system',
    'if np.allclose(principal_vec, dilation * principal_default):...',
-   'if np.isclose(np.dot(principal_vec, principal_default) / (pr_norm * pr_default_norm + (pr_norm == 0)), 1.0):\n    matrix = np.eye(ndim)\nelse:\n    matrix = rotation_matrix_from_to(principal_default, principal_vec)',
+   'if np.isclose(np.dot(principal_vec, principal_default) / (pr_norm * pr_default_norm), 1.0):\n    matrix = np.eye(ndim)\nelse:\n    matrix = rotation_matrix_from_to(principal_default, principal_vec)',
    'R9b')
